@@ -8,7 +8,7 @@ LEVEL = 'exploration'
 ENGINE = 'grid'
 TECHNIQUE = 'bounded exhaustive evaluation of a generated problem grid (series family x parameters x index range x method x precision) on the real summation code against closed forms'
 RULE = ('finite nsum/nprod over ALL ranges [a,b] with -3 <= a <= b <= 6 vs exact Fractions; infinite series with closed forms: geometric (ratios +-1/2, 1/3, '
-        '-2/3, 9/10), 1/k^s (s=2,3,4, zeta values), alternating (eta values, log 2, pi/4), hypergeometric-type (e, cosh 1, Bessel-type), exp(-k); half- and '
+        '-2/3, 9/10), 1/k^s (s=2,3,4, zeta values), alternating (eta values, log 2, pi/4), hypergeometric-type (e, cosh 1, Bessel-type), exp(-k), polynomial x geometric k*r^k (r = +-1/2, +-9/10, +-15/16); half- and '
         'doubly-infinite ranges; 2-D and 3-D sums vs the product/iterated closed form, incl. ALL 9+27 patterns of range kinds (finite, [0,inf), (-inf,0]) per argument position; every nsum method (default, richardson, shanks, levin, alternating, '
         'euler-maclaurin, direct) where applicable; nprod with closed forms; sumem, sumap, limit (incl. direction), richardson, shanks, levin, cohen_alt on '
         'explicit sequences; precisions {30,53,100,300}.  Tolerance 2^(10-p) relative.  non-trivial = every problem; distinct by construction')
@@ -28,14 +28,14 @@ def F2m(mp, fr):
     return mp.mpf(fr.numerator) / fr.denominator
 
 
-def close(acc, mp, desc, got, exact_fn, p, kind):
+def close(acc, mp, desc, got, exact_fn, p, kind, **tags):
     mp.prec = 3 * p + 60
     try:
         ex = exact_fn()
         err = abs(got - ex)
         acc.evals += 1; acc.nontrivial += 1
         if not (err <= mp.mpf(2) ** (10 - p) * max(abs(ex), mp.mpf(2) ** -40 if ex == 0 else 0) or (ex == 0 and err <= mp.mpf(2) ** (10 - p))):
-            acc.violation([kind, desc, p], '%s at prec %d = %s, exact %s' % (desc, p, mp.nstr(got, 20), mp.nstr(ex, 20)), kind=kind, desc=desc.split(' ')[0])
+            acc.violation([kind, desc, p], '%s at prec %d = %s, exact %s' % (desc, p, mp.nstr(got, 20), mp.nstr(ex, 20)), kind=kind, desc=desc.split(' ')[0], **tags)
     finally:
         mp.prec = p
 
@@ -91,6 +91,9 @@ def t_infinite(task):
         P.append(('exp(-k)', lambda k: mp.exp(-k), [0, inf], lambda: 1 / (1 - mp.exp(-1)), None))
         P.append(('k/2^k', lambda k: k / mp.mpf(2) ** k, [1, inf], lambda: mp.mpf(2), None))
         P.append(('1/(k(k+1))', lambda k: 1 / (k * (k + 1)), [1, inf], lambda: mp.mpf(1), None))
+        # polynomial x geometric, both signs, ratios up to 15/16
+        for r in (Fraction(1, 2), Fraction(-1, 2), Fraction(9, 10), Fraction(-9, 10), Fraction(15, 16), Fraction(-15, 16)):
+            P.append(('polygeo k*r^k r=%s' % r, (lambda r: lambda k: k * F2m(mp, r) ** k)(r), [0, inf], (lambda r: lambda: F2m(mp, r) / (1 - F2m(mp, r)) ** 2)(r), None))
         for desc, f, rng, ex, special in P:
             methods = [None, 'richardson', 'shanks', 'levin', 'euler-maclaurin', 'r+s+e'] if not special else [None, 'alternating', 'levin', 'shanks']
             for m in methods:
@@ -108,11 +111,12 @@ def t_infinite(task):
                     acc.count('raised'); continue
                 # a requested method that is not suited to the series may legitimately not reach full accuracy: the property speaks of
                 # convergent results of the acceleration methods on the series classes they are designed for
-                suited = (m is None) or (m == 'alternating') or (m == 'levin') or (m == 'shanks' and ('geometric' in desc or 'alt' in desc or 'exp' in desc)) or \
+                suited = (m is None) or (m == 'alternating' and 'polygeo' not in desc) or (m == 'levin') or (m == 'shanks' and ('geometric' in desc or 'alt' in desc or 'exp' in desc)) or \
                          (m in ('richardson', 'r+s+e') and ('zeta' in desc or 'k^2' in desc or 'k(k+1)' in desc)) or (m == 'euler-maclaurin' and ('zeta' in desc or 'k^2' in desc or 'k(k+1)' in desc))
                 if not suited:
                     acc.count('unsuited_method_runs'); continue
-                close(acc, mp, '%s method=%s' % (desc, m), g, ex, p, 'infinite-sum')
+                extra = {'ratio': desc.split('r=')[1], 'method': str(m), 'lowprec': p <= 53} if 'polygeo' in desc else {}
+                close(acc, mp, '%s method=%s' % (desc, m), g, ex, p, 'infinite-sum', **extra)
         acc.sample(['nsum', 'alt eta(2)', 'levin', p])
     finally:
         mp.prec = 53
